@@ -300,7 +300,8 @@ def run(prog, R):
                                     if r[0] == 'arg' and r[1] == 1:
                                         pth = tuple(q[1] for q in r[-1] if q[1] not in ('[]',))
                                         for o in OFFSETS[fmt]:
-                                            if pth[:len(o)] == o:
+                                            # the offset itself, or the struct that holds it (`self.buf_pos.line_start_mut(line)`)
+                                            if pth[:len(o)] == o or (pth and o[:len(pth)] == pth):
                                                 unknown_touch.add(o)
                 for x in after:
                     for s in b.blocks[x].stmts:
@@ -333,6 +334,25 @@ def run(prog, R):
                                 for o in s.rv.ops:
                                     if same_amount(b, o, ct, du):
                                         flows = True
+                    if not flows:
+                        # through a private method of the position (`self.position.advance(n_lines, consumed as u64)`) that adds
+                        # that parameter to its byte field
+                        for x in after:
+                            t_ = b.blocks[x].term
+                            cb_ = prog.local_callee_body(t_.callee) if t_.k == 'call' else None
+                            if cb_ is None or not t_.args:
+                                continue
+                            r0_ = roots_of(b, t_.args[0], du)
+                            if not (r0_ and all(r[0] == 'arg' and r[1] == 1 and tuple(q[1] for q in r[-1]) == ('position',) for r in r0_)):
+                                continue
+                            for ai, a_ in enumerate(t_.args[1:], start=2):
+                                if same_amount(b, a_, ct, du):
+                                    for blk2 in cb_.blocks:
+                                        for s2 in blk2.stmts:
+                                            if s2.k == 'assign' and s2.place.local == 1 and [q['name'] for q in s2.place.proj if q['k'] == 'field'] == ['byte'] \
+                                                    and s2.rv.k == 'bin' and s2.rv.j['op'].startswith('Add') and any(
+                                                        (not o.is_const) and any(r[0] == 'arg' and r[1] == ai for r in roots_of(cb_, o)) for o in s2.rv.ops):
+                                                flows = True
                     R.add('UNIT-3', b, 'consume#%d:accounted-in-file-offset' % (ci + 1), flows, site(b, ct.line),
                           'the function stores no buffer offsets; the consumed amount %s added to Position.byte' % ('is' if flows else 'is NOT'))
                 else:
@@ -552,7 +572,9 @@ def unit3b(prog, R):
             for f, k in hp.get('w', ()):
                 if f in LINES:
                     (shifted if k in ('shift', 'zero') else other).add(f)
-        start_ok = all(any(f == 'pos.0' and k == 'zero' for f, k in hp.get('w', ())) for (rv, hp) in outs) and bool(outs)
+        # (a function that either compacts or grows - `provide_space(part, may_move)` - : the outcomes in which it moved offsets)
+        outs_c = [o for o in outs if o[1].get('w')] or outs
+        start_ok = all(any(f == 'pos.0' and k == 'zero' for f, k in hp.get('w', ())) for (rv, hp) in outs_c) and bool(outs_c)
         recomputed = set()
         for (rv, hp) in it.run_fn(resum, hp_in.copy(), [('rself',), arg]):
             for f, k in hp.get('w', ()):
